@@ -21,6 +21,8 @@ pub enum LeafOp {
     SetNone,
     /// Option: None -> Some(default)
     SetSomeDefault,
+    /// Option: None -> Some(value whose bools are true and whose integers are all ones)
+    SetSomeOnes,
     /// Vec: change the element count, prefix kept consistent
     VecResize(i64),
     /// Vec: set to empty
@@ -65,6 +67,7 @@ impl MutSpec {
                 LeafOp::XorBytes(_) => "xor_bytes",
                 LeafOp::SetNone => "some_to_none",
                 LeafOp::SetSomeDefault => "none_to_some",
+                LeafOp::SetSomeOnes => "none_to_some_ones",
                 LeafOp::VecResize(_) => "vec_resize",
                 LeafOp::VecClear => "vec_clear",
                 LeafOp::VecPrefix(_) => "vec_prefix",
@@ -120,6 +123,28 @@ fn apply_leaf(v: &mut V, t: &T, op: &LeafOp) -> bool {
                 if let T::Opt(e) = t {
                     *tag = 1;
                     *inner = Some(Box::new(schema::default_of(e)));
+                    return true;
+                }
+            }
+            false
+        }
+        (V::Opt(tag, inner), LeafOp::SetSomeOnes) => {
+            if inner.is_none() {
+                if let T::Opt(e) = t {
+                    fn ones(v: &mut V) {
+                        match v {
+                            V::Bool(b) => *b = 1,
+                            V::U8(x) => *x = 0xff,
+                            V::U32(x) => *x = u32::MAX,
+                            V::U128(x) => *x = u128::MAX,
+                            V::Arr(vs) | V::Tup(vs) | V::Vec(vs, _) => vs.iter_mut().for_each(ones),
+                            _ => {}
+                        }
+                    }
+                    let mut d = schema::default_of(e);
+                    ones(&mut d);
+                    *tag = 1;
+                    *inner = Some(Box::new(d));
                     return true;
                 }
             }
@@ -283,7 +308,8 @@ pub fn catalogue(phase: &str, bytes: &[u8], rng: &mut ChaCha8Rng, huge_prefixes:
     }
     let nones = schema::paths(&v, &t, &|v, _| matches!(v, V::Opt(_, None)));
     for p in pick3(&nones, rng).into_iter().take(2) {
-        out.push(MutSpec::At { path: p, op: LeafOp::SetSomeDefault });
+        out.push(MutSpec::At { path: p.clone(), op: LeafOp::SetSomeDefault });
+        out.push(MutSpec::At { path: p, op: LeafOp::SetSomeOnes });
     }
     // element counts at every nesting level
     let vecs = schema::paths(&v, &t, &|v, _| matches!(v, V::Vec(..)));
